@@ -2,13 +2,13 @@
 package core
 
 import (
-	"sync"
 	"encoding/json"
 	"fmt"
 	"os"
 	"path/filepath"
 	"sort"
 	"strings"
+	"sync"
 	"time"
 )
 
@@ -236,23 +236,23 @@ func (r *Report) Finish(verifDir string, seed int64) int {
 	}
 	total := len(r.Obls)
 	cov := map[string]any{
-		"explanation": fmt.Sprintf("static analysis of /repo's current source (nothing under /repo is executed): %d rule instances (obligations) were generated by %d rules; %d discharged, %d violated, %d undecided, %d matched known findings. Each obligation names the construct (function + expression) it was decided on.", total, len(r.Rules), nd, nv, nu, nk),
-		"obligations":          total,
-		"discharged":           nd,
-		"violated":             nv,
-		"undecided":            nu,
-		"known_findings":       nk,
-		"checker_cmd":          fmt.Sprintf("./check.sh %s %s", r.Property, r.Tier),
-		"trusted_base":         r.Assumptions,
-		"rules":                rules,
-		"per_rule":             perRuleCount,
-		"analysed":             r.Analysed,
-		"samples":              samples,
-		"all_obligations":      allKeys(r.Obls),
-		"evaluations":          total,
-		"distinct_nontrivial":  distinctKeys(r.Obls),
-		"rule":                 "one case = one obligation (rule instance on a concrete construct of the current tree); distinct = distinct rule|construct keys; role/anchor obligations are excluded from distinct_nontrivial",
-		"exhaustive":           true,
+		"explanation":         fmt.Sprintf("static analysis of /repo's current source (nothing under /repo is executed): %d rule instances (obligations) were generated by %d rules; %d discharged, %d violated, %d undecided, %d matched known findings. Each obligation names the construct (function + expression) it was decided on.", total, len(r.Rules), nd, nv, nu, nk),
+		"obligations":         total,
+		"discharged":          nd,
+		"violated":            nv,
+		"undecided":           nu,
+		"known_findings":      nk,
+		"checker_cmd":         fmt.Sprintf("./check.sh %s %s", r.Property, r.Tier),
+		"trusted_base":        r.Assumptions,
+		"rules":               rules,
+		"per_rule":            perRuleCount,
+		"analysed":            r.Analysed,
+		"samples":             samples,
+		"all_obligations":     allKeys(r.Obls),
+		"evaluations":         total,
+		"distinct_nontrivial": distinctKeys(r.Obls),
+		"rule":                "one case = one obligation (rule instance on a concrete construct of the current tree); distinct = distinct rule|construct keys; role/anchor obligations are excluded from distinct_nontrivial",
+		"exhaustive":          true,
 	}
 	for k, v := range r.Extra {
 		cov[k] = v
